@@ -143,6 +143,7 @@ func externalMod(fn *ssa.Function, call *ssa.CallCommon) ModSet {
 				m.add(l, li)
 			}
 		}
+		m.add(builderNLLoc, LocInfo{Kind: "C", Val: types.Typ[types.Int]})
 	case strings.HasPrefix(name, "encoding/json.Unmarshal"), strings.HasPrefix(name, "(*encoding/json.Decoder)"):
 		m.Top = true
 	}
